@@ -4,7 +4,25 @@ open Util
 
 let rec z_of_int (i : int) : z = if i = 0 then Z0 else if i > 0 then Zpos (pos_of_int i) else Zneg (pos_of_int (- i))
 let int_of_z = function Z0 -> 0 | Zpos p -> int_of_pos p | Zneg p -> - (int_of_pos p)
-let zs (s : string) : z = z_of_int (int_of_string s)
+(* decimal text of any size -> Z (values beyond OCaml's 63-bit int, e.g. uint64 group keys) *)
+let z_of_dec (s : string) : z =
+  let neg = String.length s > 0 && s.[0] = '-' in
+  let body = if neg then String.sub s 1 (String.length s - 1) else s in
+  if body = "" then failwith "bad number";
+  let digits = Array.init (String.length body) (fun i ->
+      let d = Char.code body.[i] - 48 in if d < 0 || d > 9 then failwith ("bad number " ^ s) else d) in
+  let is_zero () = Array.for_all (fun d -> d = 0) digits in
+  let halve () =
+    let carry = ref 0 in
+    Array.iteri (fun i d -> let cur = !carry * 10 + d in digits.(i) <- cur / 2; carry := cur mod 2) digits;
+    !carry in
+  let rec bits () = if is_zero () then [] else (let b = halve () in b :: bits ()) in  (* least significant first *)
+  let rec pos = function
+    | [1] -> XH | 0 :: r -> XO (pos r) | 1 :: r -> XI (pos r) | _ -> failwith "z_of_dec" in
+  match bits () with
+  | [] -> Z0
+  | bl -> if neg then Zneg (pos bl) else Zpos (pos bl)
+let zs (s : string) : z = match int_of_string_opt s with Some i -> z_of_int i | None -> z_of_dec s
 
 let string_of_clause = function
   | ClMembership -> "membership" | ClUnknownRow -> "unknown_row" | ClTwice -> "twice" | ClOrder -> "order"
